@@ -312,7 +312,8 @@ def random_history(rng, nops):
         m = rng.choice([1, 1, 2, 3])
         present = list(heap[m].nodes)
         op = rng.choice(['AddNode', 'AddNode', 'AddNodesFrom', 'SetResid', 'RemoveNode', 'RemoveNodesFrom', 'AddEdge',
-                         'AddInter', 'AddInter', 'AddOrReplace', 'RemoveInter', 'Copy', 'Subgraph', 'Merge', 'Merge'])
+                         'AddInter', 'AddInter', 'AddOrReplace', 'RemoveInter', 'Copy', 'Subgraph', 'Merge', 'Merge',
+                         'MergeAll', 'MergeChains', 'ToMolecule'])
         a = {'resid': rng.randint(1, 9), 'cg': rng.randint(1, 9), 'tag': rng.choice('pqr')}
         ev = {'ev': op, 'm': m}
         touched = [m]
@@ -381,6 +382,66 @@ def random_history(rng, nops):
                 ev.update(m=d, src=m, ks=ks)
                 touched = [d, m]
                 heap[d] = heap[m].subgraph(ks)
+            elif op == 'MergeAll':
+                # vermouth.processors.MergeAllMolecules on a system holding the three molecules in a random order
+                from vermouth.system import System
+                from vermouth.processors.merge_all_molecules import MergeAllMolecules
+                order = rng.sample(sorted(heap), 3)
+                if sum(len(heap[i]) for i in order) > 16:
+                    continue
+                system = System()
+                system.molecules = [heap[i] for i in order]
+                ev.update(m=order[0], ks=order)
+                touched = order
+                MergeAllMolecules().run_system(system)
+                assert system.molecules == [heap[order[0]]] or len(system.molecules) == 1
+            elif op == 'MergeChains':
+                # vermouth.processors.MergeChains: the molecules whose chains are all selected are merged into a NEW molecule
+                from vermouth.system import System
+                from vermouth.processors.merge_chains import MergeChains
+                order = rng.sample(sorted(heap), 3)
+                if sum(len(heap[i]) for i in order) > 16:
+                    continue
+                chains = rng.sample(['p', 'q', 'r'], rng.randint(1, 3))
+                for i in order:       # the chain of an atom is its tag in this driver
+                    for _, d in heap[i].nodes(data=True):
+                        d['chain'] = d.get('atomname')
+                system = System()
+                system.molecules = [heap[i] for i in order]
+                before = {id(heap[i]): i for i in order}
+                MergeChains(chains=chains).run_system(system)
+                new = [x for x in system.molecules if id(x) not in before]
+                d = order[-1] if not new else None
+                ev.update(m=m, ks=order, at=chains)
+                if new:
+                    # the merged molecule replaces the heap cell of the first merged molecule only in our bookkeeping: the
+                    # originals are untouched objects, so store the new object in a cell and let TLC compare all cells
+                    tgt = rng.choice(sorted(heap))
+                    heap[tgt] = new[0]
+                    ev['m'] = tgt
+                else:
+                    continue
+            elif op == 'ToMolecule':
+                # Block.to_molecule of a block holding the content of cell m (string keys in node order)
+                from vermouth.molecule import Block, Interaction
+                src = m
+                if not present:
+                    continue
+                blk = Block()
+                names = {k: 'n%d' % j for j, k in enumerate(heap[src].nodes)}
+                for k, dd in heap[src].nodes(data=True):
+                    blk.add_node(names[k], atomname=dd.get('atomname'), resid=dd.get('resid'), charge_group=dd.get('charge_group'))
+                blk.add_edges_from((names[x], names[y]) for x, y in heap[src].edges)
+                for ty, lst in heap[src].interactions.items():
+                    for it in lst:
+                        blk.interactions[ty].append(Interaction(atoms=tuple(names[x] for x in it.atoms), parameters=list(it.parameters), meta=dict(it.meta)))
+                off, dres, dcg = rng.choice([0, 1, 7]), rng.choice([0, 2]), rng.choice([0, 3])
+                dst = rng.choice([i for i in heap if i != src])
+                ev.update(m=dst, src=src, k=off, r=dres, v=dcg)
+                touched = [dst, src]
+                newmol = blk.to_molecule(atom_offset=off, offset_resid=dres, offset_charge_group=dcg,
+                                         default_attributes={})
+                heap[dst] = newmol
             elif op == 'Merge':
                 n = rng.choice([i for i in heap if i != m])
                 if len(heap[m]) + len(heap[n]) > 16:
